@@ -36,7 +36,7 @@ from ural.youtube import is_youtube_url, normalize_youtube_url
 
 IRRELEVANT_QUERY_PATTERN = r"^(?:__twitter_impression|_guc_consent_skip|guccounter|fb_action_types|(?:php|asp|j)?sessionid|fb_action_ids|fb_source|echobox|feature|recruiter|_unique_id|twclid|mibextid|campaignid|adgroupid|cn-reloaded|ao_noptimize|mkt_tok|fbclid|igshid|refid|gclid|mc_cid|mc_eid|__tn__|_ft_|dclid|wpamp|fref|usqp|ncid|mtm_.+|utm_.+%s|s?een|cftoken|cfid|sid|xt(?:loc|ref|cr|np|or|s)|at_.+|_ga)$"
 
-IRRELEVANT_SUBDOMAIN_PATTERN = r"\b(?:www\d?|mobile%s|m)\."
+IRRELEVANT_SUBDOMAIN_PATTERN = r"(?<![^.])(?:www\d?|mobile%s|m)\."
 
 AMP_QUERY_PATTERN = r"|amp_.+|amp"
 AMP_QUERY_COMBOS = {"outputtype": ("amp",)}
@@ -153,10 +153,11 @@ def normalize_hostname(hostname, normalize_amp=True):
 
     pattern = IRRELEVANT_SUBDOMAIN_AMP_RE if normalize_amp else IRRELEVANT_SUBDOMAIN_RE
 
-    hostname = pattern.sub("", hostname)
-
+    # NOTE: done first so that "amp-www.x.com" still loses its "www."
     if normalize_amp and hostname.startswith("amp-"):
         hostname = hostname[4:]
+
+    hostname = pattern.sub("", hostname)
 
     hostname = decode_punycode_hostname(hostname)
 
@@ -363,6 +364,11 @@ def normalize_url(
     if path == "/" and not fragment and not query:
         path = ""
 
+    # Normalizing AMP subdomains
+    # NOTE: done first so that "amp-www.x.com" still loses its "www."
+    if normalize_amp and hostname and hostname.startswith("amp-"):
+        hostname = hostname[4:]
+
     # Dropping irrelevant subdomains
     if hostname and strip_irrelevant_subdomains:
         hostname = re.sub(
@@ -379,10 +385,6 @@ def normalize_url(
     if strip_authentication:
         user = None
         password = None
-
-    # Normalizing AMP subdomains
-    if normalize_amp and hostname and hostname.startswith("amp-"):
-        hostname = hostname[4:]
 
     # Dropping trailing slash
     if strip_trailing_slash and path.endswith("/"):
